@@ -1,0 +1,123 @@
+//go:build verif
+// +build verif
+
+package node
+
+import (
+	"sync"
+
+	"github.com/youzan/ZanRedisDB/raft"
+	"github.com/youzan/ZanRedisDB/raft/raftpb"
+	"github.com/youzan/ZanRedisDB/transport/rafthttp"
+	"github.com/youzan/ZanRedisDB/wal/walpb"
+)
+
+// VerifReadyEvent is one externally visible step of raftNode.processReady, in the order in
+// which the steps happened: "wal-save" (persistStorage.Save returned), "snap-save", "send"
+// (messages handed to the transport), "publish" (committed entries / snapshot handed to the
+// apply loop; recorded through Published of the other events), "advance".
+type VerifReadyEvent struct {
+	Kind string
+	Msgs []raftpb.Message
+	Ents []raftpb.Entry
+	// Published: the committed entries of the Ready were already in the apply loop's queue
+	// when this step happened
+	Published bool
+}
+
+type verifTimeline struct {
+	mu      sync.Mutex
+	ev      []VerifReadyEvent
+	commitC chan applyInfo
+}
+
+func (t *verifTimeline) add(e VerifReadyEvent) {
+	t.mu.Lock()
+	e.Published = len(t.commitC) > 0
+	t.ev = append(t.ev, e)
+	t.mu.Unlock()
+}
+
+type verifPersist struct{ tl *verifTimeline }
+
+func (p *verifPersist) Save(st raftpb.HardState, ents []raftpb.Entry) error {
+	p.tl.add(VerifReadyEvent{Kind: "wal-save", Ents: ents})
+	return nil
+}
+func (p *verifPersist) SaveSnap(raftpb.Snapshot) error {
+	p.tl.add(VerifReadyEvent{Kind: "snap-save"})
+	return nil
+}
+func (p *verifPersist) Load() (*raftpb.Snapshot, error) { return nil, nil }
+func (p *verifPersist) LoadNewestAvailable([]walpb.Snapshot) (*raftpb.Snapshot, error) {
+	return nil, nil
+}
+func (p *verifPersist) Close() error                  { return nil }
+func (p *verifPersist) Release(raftpb.Snapshot) error { return nil }
+func (p *verifPersist) Sync() error                   { return nil }
+
+type verifTransport struct {
+	rafthttp.Transporter
+	tl *verifTimeline
+}
+
+func (tr *verifTransport) Send(msgs []raftpb.Message) {
+	var out []raftpb.Message
+	for _, m := range msgs {
+		if m.To != 0 {
+			out = append(out, m)
+		}
+	}
+	if len(out) > 0 {
+		tr.tl.add(VerifReadyEvent{Kind: "send", Msgs: out})
+	}
+}
+
+type verifDS struct{}
+
+func (verifDS) CleanData() error                              { return nil }
+func (verifDS) RestoreFromSnapshot(raftpb.Snapshot) error     { return nil }
+func (verifDS) PrepareSnapshot(raftpb.Snapshot) error         { return nil }
+func (verifDS) GetSnapshot(uint64, uint64) (Snapshot, error)  { return nil, nil }
+func (verifDS) UpdateSnapshotState(term uint64, index uint64) {}
+func (verifDS) Stop()                                         {}
+
+type verifRaftNode struct {
+	raft.Node
+	tl *verifTimeline
+	cc chan raftpb.ConfChange
+}
+
+func (n *verifRaftNode) Advance(rd raft.Ready)                   { n.tl.add(VerifReadyEvent{Kind: "advance"}) }
+func (n *verifRaftNode) ConfChangedCh() <-chan raftpb.ConfChange { return n.cc }
+func (n *verifRaftNode) HandleConfChanged(cc raftpb.ConfChange)  {}
+func (n *verifRaftNode) DebugString() string                     { return "" }
+
+// VerifProcessReady runs the real raftNode.processReady on one Ready with a recording WAL and a
+// recording transport. Nothing consumes the apply queue while it runs, so every recorded step
+// knows whether the committed entries had been published before it. The Ready must not carry a
+// snapshot, and (unless it makes the node leader) no configuration change among its committed
+// entries: processReady would wait for the apply loop.
+func VerifProcessReady(rd raft.Ready) []VerifReadyEvent {
+	commitC := make(chan applyInfo, 4)
+	tl := &verifTimeline{commitC: commitC}
+	stop := make(chan struct{})
+	rc := &raftNode{
+		config:         &RaftConfig{GroupID: 1, GroupName: "verif-ready", ID: 1, RaftAddr: "127.0.0.1:1"},
+		commitC:        commitC,
+		node:           &verifRaftNode{tl: tl, cc: make(chan raftpb.ConfChange)},
+		ds:             verifDS{},
+		persistStorage: &verifPersist{tl},
+		raftStorage:    raft.NewMemoryStorage(),
+		transport:      &verifTransport{rafthttp.NewNopTransporter(), tl},
+		stopc:          stop,
+		newLeaderChan:  make(chan string, 8),
+		msgSnapC:       make(chan raftpb.Message, 8),
+		readStateC:     make(chan raft.ReadState, 8),
+	}
+	rc.processReady(rd)
+	close(stop)
+	tl.mu.Lock()
+	defer tl.mu.Unlock()
+	return tl.ev
+}
